@@ -52,6 +52,8 @@ def cases(tier, base_seed):
             if r < 0.6:
                 return {"mode": "concat_empty", "k": k}
             return {"mode": "even", "k": k}
+        if rng.random() < 0.12:
+            gen.make_collinear(frame, rng)      # total extent degenerate in one axis only
         pre = None
         if rng.random() < 0.3:
             pre = {"warm": rng.random() < 0.7, "mod": rng.choice((2, 3, 4)), "rem": rng.randint(0, 1)}
